@@ -212,7 +212,8 @@ PROPS["C11"]["verus"]["pkgstreams"] = ["Package::has_stream", "Package::read_str
 FAULT_PROBES = {fn: ["faults"] for fn in ["Table::write_rows", "StringPool::write_pool", "StringPool::write_data", "PropertySet::write",
                                             "SummaryInfo::write", "FinishImpl::finish", "Package::flush"]}
 PROPS["C15"]["probes"] = FAULT_PROBES
-PROPS["C09"]["probes"] = {"StringPoolBuilder::build_from_data": ["zerorc"]}
+PROPS["C09"]["probes"] = {"StringPoolBuilder::build_from_data": ["zerorc"], "StringPool::decref": ["dangling"], "ValueRef::remove": ["dangling"]}
+PROPS["C08"]["probes"] = {"StringPool::decref": ["dangling"], "ValueRef::remove": ["dangling"]}
 PROPS["C02"]["probes"] = {"StringPoolBuilder::build_from_data": ["zerorc"]}
 PROPS["C14"]["probes"] = {"CodePage::encode": ["encode"], "CodePage::decode": ["bom"]}
 PROPS["C18"]["probes"] = {"timestamp_from_system_time": ["time"], "system_time_from_timestamp": ["time"],
